@@ -157,11 +157,21 @@ M = [
      """    temp_table = create_temp_table_of_root_nodes_in_time_window(""",
      "revert of fix 4c0c0e0 (job_hashes cleared before unique graphs)"),
     ("h-revert-d1cda90", "C15", ["C15"], SDH,
-     """            res = session.execute(stmt_3)
-            self._remove_associations_of_removed_nodes(session)""",
-     """            res = session.execute(stmt_3)""",
-     "partial revert of fix d1cda90 (associations of broken traces are left "
-     "behind again)"),
+     """        session.execute(
+            sa.delete(NODE_ASSOCIATION).where(
+                not_(
+                    sa.exists().where(
+                        NODE_ASSOCIATION.c.child_id == NodeModel.event_id
+                    )
+                )
+            )
+        )
+""",
+     """        return
+""",
+     "revert of fix d1cda90 (associations of removed spans are left behind "
+     "again); note: removing only one of the two call sites is an equivalent "
+     "mutant because the other call cleans up for both"),
 ]
 
 
@@ -186,8 +196,8 @@ def main():
             d = subprocess.run(["diff", "-u", os.path.join(REPO, path),
                                 os.path.join(scratch, path)],
                                capture_output=True, text=True).stdout
-            d = d.replace(os.path.join(REPO, path), "a/" + path).replace(
-                os.path.join(scratch, path), "b/" + path)
+            d = d.replace(os.path.join(scratch, path), "b/" + path).replace(
+                os.path.join(REPO, path), "a/" + path)
             t = subprocess.run(
                 ["/venv/bin/python", "-m", "pytest", "-q", "-p",
                  "no:cacheprovider", "--timeout=900",
